@@ -725,6 +725,7 @@ class FnEmitter:
         s.out = []
         s.phis = {}  # block -> list of (dest, ty, [(val, pred)])
         s.bitcast_src = {}
+        s.ptrtoint_src = {}
         s.gep_def = {}
         s.tmpn = 0
 
@@ -974,6 +975,11 @@ class FnEmitter:
             return []
         if k == 'bin':
             _, d, op, a, b, ty = i
+            if op == 'sub' and a[0] == 'local' and b[0] == 'local' and a[1] in s.ptrtoint_src and b[1] in s.ptrtoint_src:
+                # pointer difference spelled as integer subtraction of two ptrtoint casts: keep it a pointer
+                # subtraction so that CBMC can fold it (same object: difference of offsets)
+                pa, pb = s.ptrtoint_src[a[1]], s.ptrtoint_src[b[1]]
+                return ['%s = (%s)((const char*)%s - (const char*)%s);' % (s.declare(d, ty), em.ct(ty), V(pa), V(pb))]
             if UF_MUL and op == 'mul' and isinstance(ty, IntTy) and ty.bits == 64 and a[0] != 'int' and b[0] != 'int':
                 # sound abstraction for proofs: 64x64 multiplication as an uninterpreted function
                 return ['%s = ll2c_uf_mul64(%s, %s);' % (s.declare(d, ty), V(a), V(b))]
@@ -990,6 +996,8 @@ class FnEmitter:
             _, d, op, a, tty = i
             if op == 'bitcast':
                 s.bitcast_src[d] = a
+            if op == 'ptrtoint':
+                s.ptrtoint_src[d] = a
             return ['%s = %s;' % (s.declare(d, tty), em.cast_expr(op, a, tty, s))]
         if k == 'copy':
             _, d, v, ty = i
